@@ -443,6 +443,12 @@ func runKSCase(t *testing.T, c ksCase, keys ksKeys, master []byte) (coq string, 
 func genKSCase(r *rng) ksCase {
 	slots := []string{"s1", "s2", "s3", "s4", "s5"}
 
+	// slot ids are opaque byte strings: ids that differ only in surrounding whitespace or case name different slots
+	variants := r.chance(1, 5)
+	if variants {
+		slots = []string{"s1", " s1", "s1 ", "S1", "s2", " s2"}
+	}
+
 	var (
 		c    ksCase
 		live = map[string]int{}
@@ -539,6 +545,10 @@ func genKSCase(r *rng) ksCase {
 
 	ids := sortedKeys(live)
 	c.Tamper.Kind = pick(r, []string{"none", "none", "blob-garbage", "blob-empty", "remove", "add-empty", "add-copy", "rename", "shift", "hmac", "hmac-empty", "version", "alg"})
+	if variants {
+		c.Tamper.Kind = pick(r, []string{"none", "none", "none", "blob-garbage", "hmac"}) // the others are written for the ranks of s1..s5
+	}
+
 	c.Tamper.A = pick(r, ids)
 
 	switch c.Tamper.Kind {
